@@ -132,3 +132,43 @@ Definition chk_zworld (c : bool * ((str * ((str * bool) * (str * list str))) * o
   | inr response, Ok es => opt_eqb str_eqb (writedir [] [] (gopher0_line SRV_NAME SRV_PORT) es) (Some response)
   | _, _ => false
   end.
+
+(* ---- abstracts (shipped settings): sidecar files enter as (selector of the sidecar, decoded content) ---- *)
+Definition strip_slash (s : str) : str :=
+  match last_char s with
+  | Some c => if c =? GM_SLASH then drop_last s else s
+  | None => s
+  end.
+(* populatefromfs: a directory reads fspath + "/" + ".abstract", anything else fspath + ".abstract" *)
+Definition k_abstract_of (dirs : list str) (abstracts : list (str * str)) (sel : str) : option str :=
+  let key := if mem_str (strip_slash sel) dirs then strip_slash sel ++ lit "/.abstract"%string
+             else sel ++ lit ".abstract"%string in
+  option_map ea_value (dict_get key abstracts).
+Definition with_abstract (a : option str) (e : entry) : entry :=
+  match a with
+  | Some v => set_ea (dict_set ABSTRACT_KEY v (e_ea e)) e
+  | None => e
+  end.
+Definition k_populate_abs (dirs : list str) (abstracts : list (str * str)) (sel : str) (e : entry) : entry :=
+  with_abstract (k_abstract_of dirs abstracts sel) (k_populate sel e).
+(* handler.getentry(): a directory with a gophermap is described from the directory, a map file from the file itself *)
+Definition k_listed (abstracts : list (str * str)) (sel : str) (is_file : bool) : entry :=
+  let key := if is_file then sel ++ lit ".abstract"%string else gm_selectorbase sel ++ lit "/.abstract"%string in
+  with_abstract (option_map ea_value (dict_get key abstracts)) (new_entry sel).
+
+(* (variant, ((((selector, is map file), (content, existing)), (directories, abstracts)),
+              ((abstract_headers, doabstracts), Gopher0 menu))) *)
+Definition chk_aworld
+  (c : bool * ((((str * bool) * (str * list str)) * (list str * list (str * str))) * ((bool * bool) * str))) : bool :=
+  let '(fixed, ((((sel, is_file), (content, existing)), (dirs, abstracts)), ((headers, doabs), response))) := c in
+  match k_entries_with (k_exists existing) fixed sel is_file content with
+  | Raise _ => false
+  | Ok _ =>
+      match gophermap_prepare (k_exists existing) (k_populate_abs dirs abstracts)
+              ((if fixed then gm_linkbase_fixed else gm_linkbase_pinned) (k_kind is_file) sel) content with
+      | Ok es => opt_eqb str_eqb
+                   (writedir_abs headers doabs [] [] (gopher0_line SRV_NAME SRV_PORT) (k_listed abstracts sel is_file) es)
+                   (Some response)
+      | Raise _ => false
+      end
+  end.
